@@ -170,7 +170,7 @@ def r2(ctx):
     for fn, nm in ((w, "WriteProperty"), (rd, "ReadProperty")):
         na = [r for r in walk_shallow(fn) if isinstance(r, ast.Raise) and code_of(r) == ("property", "propertyIsNotAnArray")]
         ok = len(na) >= 1 and all(any(t == "issubclass(self.datatype, Array)" and not p for t, p in atom_texts(facts_at(r))) or any("issubclass(self.datatype, List)" == t and p for t, p in atom_texts(facts_at(r))) for r in na) \
-            and all(any(t == "arrayIndex is not None" and p for t, p in atom_texts(facts_at(r))) for r in na)
+            and all(not ev.may_hold(facts_at(r), {"arrayIndex": None}) and ev.may_hold(facts_at(r), {"arrayIndex": 1}) for r in na)
         ctx.check("Property.%s:index-on-non-array->propertyIsNotAnArray" % nm, ok, where(m, fn), "an array index on a property that is not an array answers property/propertyIsNotAnArray")
         hs = [h for t in walk_shallow(fn) if isinstance(t, ast.Try) for h in t.handlers if h.type is not None and norm(h.type) == "IndexError"]
         ok = len(hs) == 1 and any(isinstance(r, ast.Raise) and code_of(r) == ("property", "invalidArrayIndex") for r in ast.walk(hs[0]))
